@@ -249,7 +249,7 @@ class NDNApp:
         if typ == enc.LpTypeNumber.LP_PACKET:
             try:
                 lp_pkt = enc.parse_lp_packet_v2(data, with_tl=True)
-            except (enc.DecodeError, TypeError, ValueError, struct.error):
+            except (enc.DecodeError, TypeError, ValueError, IndexError, struct.error):
                 self.logger.warning('Unable to decode received packet')
                 return
             if lp_pkt.nack is not None:
@@ -258,7 +258,14 @@ class NDNApp:
                 nack_reason = None
             pit_token = lp_pkt.pit_token
             data = lp_pkt.fragment
-            typ, _ = enc.parse_tl_num(data)
+            if not data:
+                # IDLE packet: an LpPacket without a fragment carries nothing for the application
+                return
+            try:
+                typ, _ = enc.parse_tl_num(data)
+            except (IndexError, struct.error):
+                self.logger.warning('Unable to decode the fragment of LpPacket')
+                return
         else:
             nack_reason = None
             pit_token = None
@@ -266,7 +273,7 @@ class NDNApp:
         if nack_reason is not None:
             try:
                 name, _, _, _ = enc.parse_interest(data, with_tl=True)
-            except (enc.DecodeError, TypeError, ValueError, struct.error):
+            except (enc.DecodeError, TypeError, ValueError, IndexError, struct.error):
                 self.logger.warning('Unable to decode the fragment of LpPacket')
                 return
             if self.logger.isEnabledFor(logging.DEBUG):
@@ -276,7 +283,7 @@ class NDNApp:
             if typ == enc.TypeNumber.INTEREST:
                 try:
                     name, param, app_param, sig = enc.parse_interest(data, with_tl=True)
-                except (enc.DecodeError, TypeError, ValueError, struct.error):
+                except (enc.DecodeError, TypeError, ValueError, IndexError, struct.error):
                     self.logger.warning('Unable to decode received packet')
                     return
                 if self.logger.isEnabledFor(logging.DEBUG):
@@ -289,7 +296,7 @@ class NDNApp:
             elif typ == enc.TypeNumber.DATA:
                 try:
                     name, meta_info, content, sig = enc.parse_data(data, with_tl=True)
-                except (enc.DecodeError, TypeError, ValueError, struct.error):
+                except (enc.DecodeError, TypeError, ValueError, IndexError, struct.error):
                     self.logger.warning('Unable to decode received packet')
                     return
                 if self.logger.isEnabledFor(logging.DEBUG):
